@@ -66,7 +66,7 @@ func c13BodySchema() gen.S {
 		"m":  gen.S{"type": "integer"},
 		"o":  gen.S{"type": "object", "properties": gen.S{"x": gen.S{"type": "integer", "default": 1.0}, "y": gen.S{"type": "string"}}},
 		"od": gen.S{"type": "object", "default": gen.S{"y": "why"}, "properties": gen.S{"x": gen.S{"type": "integer", "default": 1.0}, "y": gen.S{"type": "string"}}},
-		"arr": gen.S{"type": "array", "items": gen.S{"type": "object", "properties": gen.S{"k": str("K"), "v": gen.S{"type": "integer"}}}},
+		"arr": gen.S{"type": "array", "uniqueItems": true, "items": gen.S{"type": "object", "properties": gen.S{"k": str("K"), "v": gen.S{"type": "integer"}}}},
 		"one": gen.S{"oneOf": gen.Arr(branch("t1", "d1", "D1", "E1", false), branch("t2", "d2", "D2", "E2", true))},
 		"any": gen.S{"anyOf": gen.Arr(branch("u1", "g1", "G1", "H1", false), branch("u2", "g2", "G2", "H2", true))},
 		"all": gen.S{"allOf": gen.Arr(gen.S{"type": "object", "properties": gen.S{"p": str("P")}}, gen.S{"type": "object", "properties": gen.S{"q": str("Q")}})},
@@ -570,6 +570,21 @@ func c13Case(c *core.Ctx, router routers.Router, op *openapi3.Operation, params 
 		after := c13Snapshot(req)
 		if !reflectEqualMaps(before.query, after.query) || !reflectEqualMaps(before.header, after.header) || !jsonBytesEqual(before.body, after.body) {
 			c.Violate(feat("second_validation_changes_request"), mk(fmt.Sprintf("%v %v %s", after.query, after.header, after.body), fmt.Sprintf("%v %v %s", before.query, before.header, before.body)), desc)
+		}
+		// ---- (4) the same RequestValidationInput value validated once more (a caller that keeps its input) ----
+		var verr3 error
+		if pi := core.Guard(func() { verr3 = openapi3filter.ValidateRequest(bgCtx, in) }); pi != nil {
+			c.Violate(core.PanicFeatures(pi), mk(pi.Value, ""), pi.Stack)
+			return
+		}
+		c.Cover("revalidation", "same input value again")
+		again := c13Snapshot(req)
+		if verr3 != nil {
+			f := feat("same_input_fails_when_validated_again")
+			f["part"] = c07Part(firstErr(verr3))
+			c.Violate(f, mk(verr3.Error(), "nil"), desc+"\nvalidating the same RequestValidationInput a second time: "+core.Truncate(verr3.Error(), 300))
+		} else if !reflectEqualMaps(after.query, again.query) || !reflectEqualMaps(after.header, again.header) || !jsonBytesEqual(after.body, again.body) {
+			c.Violate(feat("validating_same_input_again_changes_request"), mk(fmt.Sprintf("%v %v %s", again.query, again.header, again.body), fmt.Sprintf("%v %v %s", after.query, after.header, after.body)), desc)
 		}
 	}
 	if c.WantSample() && wantBody != nil && b.name == "one-branch1-list" {
